@@ -4,12 +4,18 @@ wt="$1"; export GOFLAGS=-mod=mod GOPROXY=off GOSUMDB=off
 cd "$wt/gnark-plonky2-verifier" || exit 2
 out="$wt/confirm.txt"; : > "$out"
 go build ./... >>"$out" 2>&1 && echo "build_with_change=ok" >>"$out" || echo "build_with_change=FAIL" >>"$out"
-demos=$(ls tests/zz_*_test.go 2>/dev/null | tr '\n' ' ')
+demos=$(find . -name 'zz_*_test.go' | tr '\n' ' ')
 echo "demos=$demos" >>"$out"
-# demo with change
-go test -vet=off -count=1 -run 'ZZ' ./tests/ > "$wt/demo_with.log" 2>&1; echo "demo_with_change_exit=$?" >>"$out"
-# suite with change (demo moved away)
-mkdir -p "$wt/.demo_hold"; mv tests/zz_*_test.go "$wt/.demo_hold/" 2>/dev/null
+rundemo() { # runs every demo test, exit 1 if any fails
+  rc=0
+  for f in $demos; do
+    pkg=$(dirname $f); names=$(grep -h '^func Test' $f | sed 's/func \(Test[A-Za-z0-9_]*\).*/\1/' | tr '\n' '|' | sed 's/|$//')
+    go test -vet=off -count=1 -timeout 30m -run "^($names)\$" $pkg >> "$1" 2>&1 || rc=1
+  done
+  return $rc
+}
+rundemo "$wt/demo_with.log"; echo "demo_with_change_exit=$?" >>"$out"
+mkdir -p "$wt/.demo_hold"; for f in $demos; do mkdir -p "$wt/.demo_hold/$(dirname $f)"; mv $f "$wt/.demo_hold/$f"; done
 go test -mod=mod -json -vet=off -count=1 -timeout 25m ./... > "$wt/suite_with.json" 2>/dev/null
 python3 - "$wt/suite_with.json" >>"$out" <<'PY'
 import json,sys
@@ -21,8 +27,7 @@ for l in open(sys.argv[1]):
 bad=[t for t in want if res.get(t)!='pass']
 print(f"suite_with_change={len(want)-len(bad)}/{len(want)} stable tests pass")
 PY
-mv "$wt/.demo_hold/"* tests/ 2>/dev/null
-# demo without change
-git -C "$wt" apply -R "$wt/patch.diff" && go test -vet=off -count=1 -run 'ZZ' ./tests/ > "$wt/demo_without.log" 2>&1; echo "demo_without_change_exit=$?" >>"$out"
+for f in $demos; do mv "$wt/.demo_hold/$f" $f; done
+git -C "$wt" apply -R "$wt/patch.diff" && rundemo "$wt/demo_without.log"; echo "demo_without_change_exit=$?" >>"$out"
 git -C "$wt" apply "$wt/patch.diff"
 cat "$out"
